@@ -885,7 +885,13 @@ def geo_fixup(d, spec, ratio=None, hessian=False):
     if spec['kind'] != 'geo':
         return d
     L = 1 if hessian else int(np.size(d.fd_rule.rule(spec['step_ratio'])))
-    d.step.num_steps = spec['k'] + L - 1
+    ntot = spec['k'] + L - 1
+    d.step.num_steps = ntot
+    # moderate dynamic range h_max / h_min <= 1e4: beyond it the small steps only add rounding noise
+    for r in (spec['step_ratio'], 3.0, 2.0, 1.6, 1.3):
+        if r <= spec['step_ratio'] and r ** (ntot - 1) <= 1e4:
+            break
+    d.step.step_ratio = r
     return d
 
 
@@ -977,17 +983,20 @@ def richardson_amplification(r, p, s, t):
     return float(max(1.0, np.sum(np.abs(wts))))
 
 
-def envelope_unit(an, elem, dirs, q, heads, w, dform, amp):
-    """U = amp * min over heads h of [ T_q(w h) + R(h) ]  for the partial derivative of f_elem in dirs
+def envelope_unit(an, elem, dirs, q, heads, w, dform, amp, tails=None):
+    """U = amp * min over windows of [ T_q(w h_head) + R(h_tail) ]  for the partial derivative of f_elem in dirs
     (N = len(dirs) = 1 or 2; for a mixed partial h is the geometric mean of the two steps):
-        T_q(r) = c_D * Tail_{N+q}(r) / r^N        truncation of a rule of order q (MVAnalysis.trunc)
-        R(h)   = eps (c_D M_e(D, w h) + (n+2) noise_e) / h^N     rules that difference function values
+        T_q(r) = c_D * Tail_{N+q}(r) / r^N        truncation of a rule of order q (MVAnalysis.trunc), governed
+                                                  by the largest step of the window
+        R(h)   = eps (c_D M_e(D, w h) + (n+2) noise_e) / h^N     rules that difference function values: governed
+                                                  by the smallest step of the window (tails; default = heads)
                = eps S_N(e, D; [w h, reach])                     cancellation-free rules
         c_D = N! for one coordinate, 1 for a mixed partial.
-    Returns (U, T, R) at the minimising head, or None."""
+    Returns (U, T, R) at the minimising window, or None."""
     N = len(dirs)
-    hs = np.array(sorted(set(float(h) for h in heads if h > 0), reverse=True))
-    if hs.size == 0:
+    hs = np.asarray([float(h) for h in heads], dtype=float)
+    ts = hs if tails is None else np.asarray([float(h) for h in tails], dtype=float)
+    if hs.size == 0 or not np.all(hs > 0) or not np.all(ts > 0):
         return None
     lim = min(an.reach_limit(dirs), R_CAP)
     radii = np.minimum(w * hs, lim)
@@ -995,7 +1004,7 @@ def envelope_unit(an, elem, dirs, q, heads, w, dform, amp):
     with np.errstate(all='ignore'):
         T = cD * an.trunc(elem, dirs, N + q, radii) / radii ** N
         if dform:
-            R = EPS_ * (cD * an.majorant(elem, dirs, radii) + (an.n + 2) * an.noise(elem)) / hs ** N
+            R = EPS_ * (cD * an.majorant(elem, dirs, radii) + (an.n + 2) * an.noise(elem)) / ts ** N
         else:
             R = np.array([EPS_ * (an.scale(N, elem, dirs, rr, math.inf) or math.inf) for rr in radii])
         tot = T + R
@@ -1008,8 +1017,8 @@ def envelope_unit(an, elem, dirs, q, heads, w, dform, amp):
 
 def extrapolated_unit(an, cls, method, order, elem, dirs, hcols, k_est, ratio, w, dform, amp_rule, terms=2):
     """min(U_basic, U_x): U_basic = unit of the documented leading order p over the k_est largest steps;
-    U_x = unit of order p + s*t over the k_est - t largest steps times sum |Richardson weights|,
-    t = min(terms, k_est - 1).  hcols: list of step sequences (one per coordinate in dirs), each sorted
+    U_x = unit of order p + s*t over the k_est - t windows (head h_i, tail h_{i+t}) times sum |Richardson
+    weights|, t = min(terms, k_est - 1).  hcols: list of step sequences (one per coordinate in dirs), each sorted
     descending.  Returns (U, which, t) or None."""
     s_doc, p_doc = documented_orders(cls, method, order)
     cols = [np.sort(np.asarray(c, dtype=float))[::-1] for c in hcols]
@@ -1020,7 +1029,9 @@ def extrapolated_unit(an, cls, method, order, elem, dirs, hcols, k_est, ratio, w
     ux = None
     if t > 0:
         amp_r = richardson_amplification(float(abs(ratio)), p_doc, s_doc, t)
-        ux = envelope_unit(an, elem, dirs, p_doc + s_doc * t, hs[:max(k_est - t, 1)], w, dform, amp_rule * amp_r)
+        m = max(k_est - t, 1)
+        ux = envelope_unit(an, elem, dirs, p_doc + s_doc * t, hs[:m], w, dform, amp_rule * amp_r,
+                           tails=hs[t:t + m] if hs.size >= t + m else None)
     if ub is None and ux is None:
         return None
     if ux is not None and (ub is None or ux[0] < ub[0]):
